@@ -94,3 +94,18 @@ Definition c_struct (fuel : nat) (E : list sdef) (fs : list ty) : option (list N
   | Some ms => Some (c_struct_of ms)
   | None => None
   end.
+
+(* ---- the domain of the property *)
+(* a well-formed environment = a C translation unit of complete struct types: names are unique,
+   every struct contained by value is defined, and containment by value is well-founded *)
+Record wf_env (E : list sdef) : Prop := {
+  wf_names : NoDup (map sname E);
+  wf_defined : forall d t nm, In d E -> In t (sfields d) -> field_dep t = Some nm -> In nm (map sname E);
+  wf_acyclic : exists rank : N -> nat, forall d t nm, In d E -> In t (sfields d) -> field_dep t = Some nm ->
+                 (rank nm < rank (sname d))%nat }.
+
+(* containment by value is not well-founded: there is a non-empty set of struct names each of
+   which is defined with a field that contains (directly or inside arrays) a member of the set *)
+Definition byvalue_cycle (E : list sdef) : Prop :=
+  exists C : N -> Prop, (exists nm, C nm) /\
+    forall nm, C nm -> exists d t nm', In d E /\ sname d = nm /\ In t (sfields d) /\ field_dep t = Some nm' /\ C nm'.
